@@ -69,6 +69,8 @@ def source_hashes(functions):
             obj = importlib.import_module(modname)
             for part in qual.split("."):
                 obj = getattr(obj, part)
+                if isinstance(obj, type) and obj.__qualname__.endswith("Wrapped"):
+                    obj = obj.__mro__[1]          # Migen ModuleTransformer (ResetInserter / CEInserter) wrapper -> real class
             obj = getattr(obj, "fget", obj)
             src = inspect.getsource(obj)
             out.append({"function": spec, "sha256": hashlib.sha256(src.encode()).hexdigest()[:16],
